@@ -52,6 +52,9 @@ func vrfH_C06() {
 		edge[i] = make([]bool, n)
 		var s spec.Schema
 		s.Description = "def" + itoaSmall(i)
+		if vrfParam("enums", 0) != 0 {
+			s.Enum = []interface{}{"def" + itoaSmall(i)} // indexed by the analyzer: the entry must go with the definition
+		}
 		for j := 0; j < n; j++ {
 			t := "def" + itoaSmall(i) + ".refs.def" + itoaSmall(j)
 			if !vrfBool(t) {
